@@ -57,9 +57,19 @@ run_one() {
       -artifact_prefix="$work/artifacts/" -print_final_stats=1 $dict >"$work/log" 2>&1 </dev/null )
   echo $? > "$work/status"
 }
-GDRUNS="${VERIF_GD_RUNS:-$((RUNS / 8))}"
+GDRUNS="${VERIF_GD_RUNS:-$((RUNS / 16))}"
+# executions per campaign by measured speed class (whole command lines through clap + pipeline
+# run at 100-400/s under instrumentation, parsers and comparators at 3000-6000/s)
+gd_div() {
+  case "$ID:$1" in
+    C01:*|C03:*|C04:*|C05:*|C12:roundtrip|C12:one-rule-broken|C13:*|C15:context-vs-renderer|C15:template-valued-flags) echo 16 ;;
+    C06:*|C12:malformed-documents|C15:function-contracts|C15:literal-context|C16:template-fn) echo 4 ;;
+    *) echo 1 ;;
+  esac
+}
 run_gd() {
   sub="$1"
+  gdruns=$((GDRUNS / $(gd_div "$sub")))
   work="$ROOT/.cache/fuzz-run/$ID-gd-$sub"; rm -rf "$work"; mkdir -p "$work/corpus" "$work/artifacts"
   # libFuzzer grows inputs slowly from an empty corpus: start from a few full-length random files
   python3 - "$work/corpus" "$LSEED" "$sub" <<'PY'
@@ -69,7 +79,7 @@ r = random.Random(f"{seed}/{sub}")
 for i, n in enumerate([64, 256, 512, 1024, 2048, 4096, 1024, 512]):
     open(f"{d}/seed{i}", "wb").write(bytes(r.getrandbits(8) for _ in range(n)))
 PY
-  ( cd / && ZV_GD="$ID:$sub" ZV_GD_STATS="$work/stats.json" VERIF_ROOT="$ROOT" "$BIN/gen_driven" "$work/corpus" -runs="$GDRUNS" -seed="$LSEED" -max_len=4096 -len_control=0 \
+  ( cd / && ZV_GD="$ID:$sub" ZV_GD_STATS="$work/stats.json" VERIF_ROOT="$ROOT" "$BIN/gen_driven" "$work/corpus" -runs="$gdruns" -seed="$LSEED" -max_len=4096 -len_control=0 \
       -timeout=120 -rss_limit_mb=6144 -artifact_prefix="$work/artifacts/" -print_final_stats=1 >"$work/log" 2>&1 </dev/null )
   echo $? > "$work/status"
 }
